@@ -90,8 +90,8 @@ OPS = {
     "none": [],
     "bool": _one("call", COMMON + ["False"]),
     "int": (_one("call", COMMON + ["0", "5", "False"]) +
-            _one("min", COMMON + ["0", "1", "5", "6", "False", "-2**70"]) +
-            _one("max", COMMON + ["0", "4", "5", "-2", "False"])),
+            _one("min", COMMON + ["0", "1", "5", "6", "False", "-2**70", "10**400"]) +
+            _one("max", COMMON + ["0", "4", "5", "-2", "False", "-10**400"])),
     "float": (_one("call", COMMON + ["0.0", "-0.0", "2.5", "1", "float('-inf')"]) +
               # incl. bounds that differ only below a declared precision (1.24 / 1.2 at precision 1)
               _one("min", COMMON + ["0.0", "2.5", "3.5", "float('-inf')", "0", "2.5000000001", "1.24", "0.04"]) +
